@@ -148,6 +148,12 @@ pub struct Model {
     /// the scenario rewinds the identifier counter itself (hook) to make two outstanding operations
     /// share an identifier value: the uniqueness rule of C11 is then not the library's to keep
     pub allow_pid_reuse: bool,
+    /// persistent back-pressure (mirror of `Wire::hard_budget`): the next write blocks
+    pub block_armed: bool,
+    /// the context task is stuck inside the write of this request's packet
+    pub blocked: Option<Msg>,
+    /// the block has been lifted; the interrupted write completes at the context task's next poll
+    pub block_lifted: bool,
     pub connect_spec: Option<ConnectSpec>,
     pub pending_connect: bool,
     pub connecting_cmd: &'static str,
@@ -206,6 +212,9 @@ impl Model {
             check_ctx: true,
             check_client_acks: true,
             allow_pid_reuse: false,
+            block_armed: false,
+            blocked: None,
+            block_lifted: false,
             connect_spec: None,
             pending_connect: false,
             connecting_cmd: "connect",
@@ -344,6 +353,8 @@ impl Model {
 
     pub fn drop_ctx(&mut self) {
         self.ctx = CtxSt::Gone;
+        self.blocked = None;
+        self.block_lifted = false;
         self.queue.clear();
         for i in 0..self.ops.len() {
             let o = &mut self.ops[i];
@@ -382,7 +393,7 @@ impl Model {
     // settle mirror
 
     fn ctx_runnable(&self) -> bool {
-        if self.ctx_held {
+        if self.ctx_held || (self.blocked.is_some() && !self.block_lifted) {
             return false;
         }
         match self.ctx {
@@ -425,7 +436,7 @@ impl Model {
                 continue;
             }
             // quiescent: a context parked in its select loop has an empty queue, the gate opens
-            if self.gate_closed && self.ctx == CtxSt::Running && !self.ctx_held {
+            if self.gate_closed && self.ctx == CtxSt::Running && !self.ctx_held && self.blocked.is_none() {
                 self.gate_closed = false;
                 if self.input_pending() {
                     self.ctx_woken = true;
@@ -474,10 +485,19 @@ impl Model {
         }
         // Running: one poll of the select loop
         self.ctx_woken = false;
+        if self.block_lifted {
+            self.block_lifted = false;
+            if let Some(m) = self.blocked.take() {
+                self.process_msg(m, true);
+                if self.ctx != CtxSt::Running {
+                    return;
+                }
+            }
+        }
         if !self.queue.is_empty() {
             while let Some(m) = self.queue.pop_front() {
-                self.process_msg(m);
-                if self.ctx != CtxSt::Running {
+                self.process_msg(m, false);
+                if self.ctx != CtxSt::Running || self.blocked.is_some() {
                     return;
                 }
             }
@@ -618,13 +638,38 @@ impl Model {
         }
     }
 
-    fn process_msg(&mut self, m: Msg) {
+    /// the write of the current request's packet: fails (write error), blocks (persistent
+    /// back-pressure armed: everything after the write is deferred until `unblock`), or goes through
+    fn write_gate(&mut self, m: &Msg, resumed: bool) -> bool {
+        if self.write_fails() {
+            return true;
+        }
+        if !resumed && self.block_armed {
+            self.block_armed = false;
+            self.blocked = Some(m.clone());
+            self.hit("write-blocked");
+            return true;
+        }
+        false
+    }
+
+    /// the back-pressure is lifted: the interrupted write completes and the context carries on
+    pub fn unblock(&mut self) {
+        self.block_armed = false;
+        if self.blocked.is_some() {
+            // the writer's waker fires; the write completes when the context task is polled next
+            self.block_lifted = true;
+            self.ctx_woken = true;
+        }
+    }
+
+    fn process_msg(&mut self, m: Msg, resumed: bool) {
         let (op, pubrel) = match m {
             Msg::First(op) => (op, false),
             Msg::Pubrel(op) => (op, true),
         };
         let len = self.request_len(op, pubrel);
-        if let Some(mx) = self.m {
+        if let (Some(mx), false) = (self.m, resumed) {
             let mut refused = len as u64 > mx as u64;
             // Packets whose length the standard does not fix, because the library has a choice:
             //  * SUBSCRIBE carries a subscription identifier of the library's choosing, 1-4 bytes;
@@ -678,7 +723,7 @@ impl Model {
             }
         }
         if pubrel {
-            if self.write_fails() {
+            if self.write_gate(&m, resumed) {
                 return;
             }
             let pid = self.ops[op].pid.expect("harness: pubrel without pid");
@@ -692,19 +737,19 @@ impl Model {
         match spec {
             OpSpec::Publish(p) => {
                 if p.qos() == 0 {
-                    if self.write_fails() {
+                    if self.write_gate(&m, resumed) {
                         return;
                     }
                     self.expected.push(Expect::Wire(WirePat::Request { op }));
                     self.complete(op, ResPat::Exact("Ok".into()));
                     self.hit("qos0-written");
                 } else {
-                    if self.quota_used >= self.r {
+                    if !resumed && self.quota_used >= self.r {
                         self.complete(op, ResPat::Exact("Err:QuotaExceeded".into()));
                         self.hit("quota-refusal");
                         return;
                     }
-                    if self.write_fails() {
+                    if self.write_gate(&m, resumed) {
                         return;
                     }
                     self.quota_used += 1;
@@ -720,7 +765,7 @@ impl Model {
                 }
             }
             OpSpec::Subscribe(_) => {
-                if self.write_fails() {
+                if self.write_gate(&m, resumed) {
                     return;
                 }
                 self.expected.push(Expect::Wire(WirePat::Request { op }));
@@ -731,14 +776,14 @@ impl Model {
                 self.hit("subscribe-written");
             }
             OpSpec::Unsubscribe(_) => {
-                if self.write_fails() {
+                if self.write_gate(&m, resumed) {
                     return;
                 }
                 self.expected.push(Expect::Wire(WirePat::Request { op }));
                 self.ops[op].st = St::AwaitAck;
             }
             OpSpec::Ping => {
-                if self.write_fails() {
+                if self.write_gate(&m, resumed) {
                     return;
                 }
                 self.expected.push(Expect::Wire(WirePat::Request { op }));
@@ -746,7 +791,7 @@ impl Model {
                 self.pings.push_back(op);
             }
             OpSpec::Disconnect(_) => {
-                if self.write_fails() {
+                if self.write_gate(&m, resumed) {
                     return;
                 }
                 self.expected.push(Expect::Wire(WirePat::Request { op }));
